@@ -197,3 +197,27 @@ for _k, _v in DEPENDS.items():
 
 _PENDING = 'check under construction in this round (rules designed in DESIGN.md section 5; not yet registered)'
 NOT_APPLICABLE = {('C%02d' % i): _PENDING for i in range(1, 21) if ('C%02d' % i) not in CHECKS}
+
+# ---------------------------------------------------------------- round 2 addenda (DESIGN 3.4, 10.1 E3b, 10.7)
+THREE_VALUED = (' Verdict semantics: a VIOLATION is printed only for a definite refutation found in the analysed source (a counterexample of an exhaustive finite evaluation, a wrong table entry, '
+                'a separated guard, a missing effect); code in a shape a rule does not understand makes that obligation UNDECIDED (printed, listed in the evidence, exit 0), never an alarm.')
+
+ROUND2 = {
+    'C07': 'Round 2: Ord::cmp is evaluated on the 49-case abstraction by an interpreter that follows early returns, then/then_with and match; the Z[omega] product is evaluated on symbolic coefficients for all 256 patterns of vanishing coefficients (table and zero-skips by value, not by loop shape).',
+    'C08': 'Round 2: scalar_eq is evaluated on 4764 pairs of small exact tensors against "equal up to a non-zero factor"; tensor arms are followed through free helper functions.',
+    'C10': 'Round 2: the Measure / MeasureReset arms are evaluated on a tracing host graph with and without a gate parity (given parity used, fresh variable otherwise, counter moved exactly once when fresh, parity attached to the X effect), private helpers followed.',
+    'C11': 'Round 2: is_identity is evaluated on all 422 boundary configurations with at most 2 inputs, 2 outputs and one interior vertex (soundness of every "true", no panic); the guards of effect schemas are compared as boolean functions (enum variants, order trichotomy, options) rather than as text.',
+    'C12': 'Round 2: equal_graph_with_options and equal_graph_tensor are evaluated over a symbolic host (diagrams as expressions adj(arg1) o arg2, 16 worlds of dims / identity / flag / scalar argument) against the soundness table of the statement; is_identity as in C11.',
+    'C13': 'Round 2: reader/writer field provenance is compared through canonical, name-independent access paths (self.node_vertices[*].1.annotation.coord.0 ...); the marker condition is evaluated for every vertex type and both flag values; the neighbour-count validation is recognised as a length test or a two-element slice pattern.',
+    'C14': 'Round 2: Gate::to_qasm is evaluated for every kind and both phase classes and Display for Circuit on a circuit whose gates leave the last qubits untouched (text compared with the reference form); the exact-multiple path and the register fallback are decided on access paths.',
+    'C15': 'Round 2: decided by evaluation on small circuits — Gate::adjoint on every unitary kind (denotation negated), Circuit::adjoint / reverse / to_adjoint on circuits of 0..6 gates in every two-slice layout of the VecDeque, push_basic_gates / num_basic_gates / to_basic_gates for every kind and arity (CCZ / Toffoli multiplied out, parity-phase as an F2 phase polynomial for arities 0..8), CircuitStats::make on 168 one-gate circuits plus additivity, the five Add impls.',
+    'C17': 'Round 2: the statement\'s own clauses are decided exhaustively for every F2 matrix with at most 3 rows and 3 columns (thorough tier: 3x4, the bound the statement names), every block size 1..cols and both reduction modes, against a brute-force model: rank, (reduced) echelon form, same row space through the reported row operations, two-sided inverse exactly when invertible, null space (annihilated, independent, cols - rank), transpose, stacking, all four Mul impls. Larger sizes remain covered structurally (block tiling up to 24 columns).',
+    'C18': 'Round 2: cache-key canonicality is read off dominating conditions (guards, early continues, negations), cache writes off value provenance.',
+    'C19': 'Round 2: every generator is explored over ALL outcomes of its random draws for small parameters (about 6000 outcomes per run): distinct in-range qubit arguments, only kinds with non-zero probability and all of them, depth, Pauli-gadget weights / phases (non-Clifford for even denominators >= 4) / basis-change layer undone by its adjoint, stabiliser-state structure with scalar sqrt2^(#H-edges - qubits), and the hidden-shift promise itself on 6 qubits (|0..0> -> |shift> with probability one, exact integer amplitudes).',
+}
+
+for _pid, _row in CHECKS.items():
+    if _pid in ROUND2:
+        _row['text'] = _row['text'].rstrip() + ' ' + ROUND2[_pid]
+        _row['technique'] = _row['technique'] + ', exhaustive finite-domain evaluation of closed fragments by a source-level abstract interpreter (no code of the crate is compiled or run)'
+    _row['note'] = _row['note'].rstrip() + THREE_VALUED
